@@ -166,6 +166,23 @@ func corrC01(r *Run) {
 				h := reflect.ValueOf(p).Elem().Field(0).Addr().Interface().(*pdu.Header)
 				h.CommandStatus = pdu.CommandStatus(r.Rng.Pick([]int{1, 0xFF, 0x400, int(uint32(r.Rng.U64()) | 1)}))
 			}
+			if i%6 == 2 {
+				// a Marshal that fails half-way first: nothing of it may show up in the next frame
+				bad := clonePDU(p)
+				bv := reflect.ValueOf(bad).Elem()
+				for j := bv.NumField() - 1; j > 0; j-- {
+					if bv.Field(j).Kind() == reflect.String {
+						bv.Field(j).SetString("stale\x00residue")
+						break
+					}
+					if a, ok := bv.Field(j).Interface().(pdu.Address); ok {
+						a.No = "98\x0076"
+						bv.Field(j).Set(reflect.ValueOf(a))
+						break
+					}
+				}
+				_, _, _, _, _ = marshalRec(bad)
+			}
 			orig := clonePDU(p)
 			term := coqValue(orig)
 			r.SetReplay(replayValue(orig))
